@@ -17,6 +17,12 @@ Decided (on the extracted model, both with a flow and in `ignore` mode, server c
   R29.3  TCP half-close table: on ConnectionClosed(X) while the other peer can still send, exactly
          CloseTcpConnection(opposite(X), half_close=True) and the layer keeps relaying; when neither peer can be read
          any more the layer finishes and leaves both sockets CLOSED.  UDP: a close ends the flow and closes the other side.
+The extraction is value-based (see RelaySpec): aliases, temporaries, module constants, conditional expressions, `match`, early returns,
+helper methods / module functions, `any()/all()` and loops over known sequences, Flag containment (`CAN_READ in state`) evaluate to the
+same abstract values; the state functions are found by role (whatever is stored in `_handle_event`), the terminal one by behaviour
+(swallows every event in every configuration).  A branch the model cannot decide is explored both ways and marked: a finding on such a
+path ends the run as ANALYSIS-ERROR (exit 2), never as a violation.  The environment may close the other peer's read side before a
+ConnectionClosed reaches the layer (events queued while the layer is paused on a hook).
 NOT decided: byte-level behaviour of the asyncio transports (server.py is the environment automaton, stated as an
 assumption), what an addon does inside a hook (any edit of `message.content` is covered because the send reads it
 after the hook), kill() of a flow (C11).
@@ -25,11 +31,11 @@ after the hook), kill() of a flow (C11).
 from __future__ import annotations
 
 import ast
+from collections import deque
 
 from ..core import AnalysisError
 from ..core import norm
 from ..layerx import EV
-from ..layerx import explore
 from ..layerx import is_ev
 from ..layerx import LayerSpec
 from ..layerx import Monitor
@@ -37,9 +43,12 @@ from ..model import attr_chain
 from ..model import eval_order
 from ..model import last_attr
 from ..paths import C
+from ..paths import Engine
 from ..paths import is_const
+from ..paths import Out
 from ..paths import R
 from ..paths import Spec
+from ..paths import State
 from ..paths import UNKNOWN
 from ..selftest import Mutant
 
@@ -103,12 +112,146 @@ def dataclass_fields(model, rel: str, name: str) -> list[str]:
     return out
 
 
+class RelayEngine(Engine):
+    """Path engine with exact iteration of `for x in (a, b, ...)` over a literal tuple / list (the core engine treats every for-loop as
+    zero-or-more iterations over unknown values, which is too coarse for a deterministic model); also of every iterable that evaluates
+    to a sequence of known abstract values (`for c in self._peers():`)."""
+
+    def _loop(self, node, states, depth, is_for):
+        sp = self.spec
+        if not (is_for and isinstance(node, ast.For)):
+            return Engine._loop(self, node, states, depth, is_for)
+        out = Out.empty()
+        rest = set()
+        for s0 in states:
+            seq = sp.value(node.iter, s0, depth)
+            if not (isinstance(seq, tuple) and seq and seq[0] == "seq"):
+                rest.add(s0)
+                continue
+            cur = {s0.emit(*sp.events(node.iter, s0))}
+            broke = set()
+            for v in seq[1]:
+                if not cur:
+                    break
+                cur = {sp.bind(node.target, None, s, depth, value=v) for s in cur}
+                o = self.block(node.body, cur, depth)
+                out.ret |= o.ret
+                out.exc |= o.exc
+                broke |= o.brk
+                cur = o.normal | o.cont
+                self._guard(cur)
+            if node.orelse:
+                oe = self.block(node.orelse, cur, depth)
+                out.merge_abrupt(oe)
+                cur = oe.normal
+            out.normal |= cur | broke
+        if rest:
+            o = Engine._loop(self, node, rest, depth, is_for)
+            out.merge_abrupt(o)
+            out.normal |= o.normal
+        return out
+
+    def _plain_cond(self, expr, s, depth, T, F):
+        # assignment expressions nested in a condition (`if (f := self.flow) is not None:`) bind their target like a statement would
+        for n in eval_order(expr):
+            if isinstance(n, ast.NamedExpr) and n is not expr:
+                s = self.spec.bind(n.target, n.value, s, depth)
+        Engine._plain_cond(self, expr, s, depth, T, F)
+
+
+def explore_relay(spec, entry_fn, init_env: dict, monitor, max_states: int = 20000):
+    """layerx.explore with RelayEngine (same breadth-first fix-point over (env, monitor value))."""
+    eng = RelayEngine(spec)
+    start = (tuple(sorted(init_env.items())), monitor.init)
+    seen = {start: None}
+    q = deque([start])
+    transitions = 0
+    violations = []
+    samples = []
+
+    def history(node):
+        h = []
+        while node is not None and seen.get(node) is not None:
+            parent, ev, tr = seen[node]
+            h.append((ev[1], list(tr)))
+            node = parent
+        h.reverse()
+        return h
+
+    while q:
+        node = q.popleft()
+        env, mon = node
+        for ev in monitor.offers(dict(env), mon):
+            finals = eng.finals(entry_fn, State((), dict(env)).set("0:event", ev))
+            for fs in finals:
+                transitions += 1
+                fenv = {k: v for k, v in fs.env if not (k[:1].isdigit() and ":" in k) and not k.startswith("$")}
+                exc = fs.get("$exc")
+                msgs = []
+                mon2 = monitor.step(mon, ev, fs.trace, fenv, msgs.append, exc[1] if is_const(exc) else None)
+                for m in msgs:
+                    violations.append({"message": m, "history": history(node) + [(ev[1], list(fs.trace))]})
+                if mon2 is None:
+                    continue
+                nxt = (tuple(sorted(fenv.items())), mon2)
+                if nxt not in seen:
+                    seen[nxt] = (node, ev, fs.trace)
+                    q.append(nxt)
+                    if len(samples) < 8 and fs.trace:
+                        samples.append({"event": ev[1], "trace": [list(map(str, e)) if isinstance(e, tuple) else e for e in fs.trace]})
+                    if len(seen) > max_states:
+                        raise AnalysisError(f"layer exploration exceeded {max_states} abstract states")
+    return {"states": len(seen), "transitions": transitions, "violations": violations, "samples": samples, "pruned": eng.pruned,
+            "forks": eng.forks, "truncated": eng.truncated, "inlined": sorted(eng.inlined)}
+
+
+def ctor_params(model, rel: str, func_expr) -> list[str] | None:
+    """Parameter names (without self) of the constructor of the class ``func_expr`` denotes in module ``rel``: the first ``__init__`` along
+    the MRO, else the dataclass-style annotated fields (bases first). None if the class cannot be resolved."""
+    r = model.resolve_name(model.module(rel), func_expr) if isinstance(func_expr, (ast.Name, ast.Attribute)) else None
+    if r is None or not isinstance(r[1], ast.ClassDef):
+        return None
+    m, c = r
+    qual = getattr(c, "_qual", c.name)
+    init = model.method(m.rel, qual, "__init__")
+    if init is not None:
+        a = init[1].args
+        return [p.arg for p in a.posonlyargs + a.args][1:] + [p.arg for p in a.kwonlyargs]
+    return dataclass_fields(model, m.rel, qual)
+
+
+FLOW = ("obj", "flow")
+
+
 class RelaySpec(LayerSpec):
-    """Model extraction for TCPLayer / UDPLayer."""
+    """Model extraction for TCPLayer / UDPLayer.
+
+    Everything is decided on *values*, never on the spelling of the source: locals, aliases (`client = self.context.client`), temporaries
+    (`hook = TcpMessageHook(self.flow)`), module constants (`_READABLE = ConnectionState.CAN_READ`), conditional expressions, helper
+    methods / module functions (inlined by abstract execution, also inside expressions when they are pure) all evaluate to the same
+    abstract values, and a command is recognised by the class of the value that reaches the `yield`.
+      C(x) constant | R('self.a.b') reference | ('ev', Kind, attrs) event | ('injmsg', from_client) message of an injected event
+      ('msg', from_client, data) message built by the layer | ('content', msg) its content read back | ('data', 'wire'|'injected')
+      ('obj', 'flow'[.attr]) the flow (self.flow is C(None) in ignore mode) | ('new', Class, ((param, value), ...)) command / hook object
+      ('cls', 'ConnectionState') the enum class
+    """
 
     tracked = ("self._handle_event", "self.flow", "conn.client", "conn.server")
     dispatch_attrs = ("self._handle_event",)
-    max_depth = 4
+    max_depth = 5
+    record_conds = True  # only to mark branches the model could not decide, see cond_event
+
+    def cond_event(self, expr, value, st):
+        """a branch the model cannot decide is explored both ways and marked: a finding on such a path is an ANALYSIS-ERROR, not a violation"""
+        if self.truth(expr, st, self.depth_of(st, expr)) is None:
+            self.nondet_seen.add(norm(expr)[:100])
+            return ("nondet", norm(expr)[:100])
+        return None
+
+    def loop_event(self, node, entered, st):
+        text = f"loop {norm(node.iter if isinstance(node, (ast.For, ast.AsyncFor)) else node.test)[:90]}"
+        self.nondet_seen.add(text)
+        return ("nondet", text)
 
     def __init__(self, model, rel, cls, proto, msg_class, injected_class):
         super().__init__(model, rel, cls)
@@ -119,6 +262,47 @@ class RelaySpec(LayerSpec):
         self.data_fields = dataclass_fields(model, EVENTS, "DataReceived")
         if self.data_fields != ["connection", "data"]:
             raise AnalysisError(f"events.DataReceived fields changed: {self.data_fields}")
+        self.handlers = discover_handlers(model, rel, cls)
+        self._params: dict = {}
+        self._modconst_busy: set = set()
+        self.nondet_seen: set = set()
+        # every attribute the layer itself assigns is part of the abstract state (`self.ignore = ignore` decides later branches)
+        own = []
+        for f in class_functions(model.cls(rel, cls)):
+            for n in ast.walk(f):
+                for t in (n.targets if isinstance(n, ast.Assign) else [n.target] if isinstance(n, (ast.AnnAssign, ast.AugAssign)) else []):
+                    if isinstance(t, ast.Attribute) and isinstance(t.value, ast.Name) and t.value.id == "self" and f"self.{t.attr}" not in own:
+                        own.append(f"self.{t.attr}")
+        self.tracked = tuple(self.tracked) + tuple(a for a in own if a not in self.tracked)
+
+    def initial_env(self, ignore: bool) -> dict:
+        """the layer's own attributes after `__init__(context, ignore=<ignore>)`, by abstract execution of the constructor"""
+        r = self.model.method(self.rel, self.cls, "__init__")
+        if r is None or r[0].rel != self.rel:
+            raise AnalysisError(f"{self.rel}::{self.cls} has no constructor of its own")
+        init = r[1]
+        params = [a.arg for a in init.args.posonlyargs + init.args.args + init.args.kwonlyargs][1:]
+        if "ignore" not in params:
+            raise AnalysisError(f"{self.rel}::{self.cls}.__init__ has no `ignore` parameter any more: {params}")
+        bindings = {}
+        allp = [a.arg for a in init.args.posonlyargs + init.args.args]
+        for a, d in list(zip(allp[len(allp) - len(init.args.defaults):], init.args.defaults)) + [(a.arg, d) for a, d in zip(init.args.kwonlyargs, init.args.kw_defaults) if d is not None]:
+            bindings[a] = self.value(d, State((), ()), 0)
+        bindings["ignore"] = C(ignore)
+        bindings[params[0]] = R("self.context")
+        finals = RelayEngine(self).run(init, State((), ()), bindings)
+        envs = set()
+        for fs in finals.ret:
+            env = {k: v for k, v in fs.env if k.startswith("self.")}
+            flow = env.get("self.flow", UNKNOWN)
+            if isinstance(flow, tuple) and flow and flow[0] == "new" and flow[1].endswith("Flow"):
+                env["self.flow"] = FLOW
+            elif flow != C(None):
+                raise AnalysisError(f"{self.rel}::{self.cls}.__init__(ignore={ignore}) leaves self.flow = {flow} (neither None nor a new flow)")
+            envs.add(tuple(sorted(env.items())))
+        if len(envs) != 1 or finals.exc:
+            raise AnalysisError(f"{self.rel}::{self.cls}.__init__(ignore={ignore}) is not deterministic in the relay model: {len(envs)} final states")
+        return dict(next(iter(envs)))
 
     def extra_modules(self):
         return [self.model.module(EVENTS)]
@@ -126,21 +310,115 @@ class RelaySpec(LayerSpec):
     def refs_are_distinct(self, a, b):
         return (a in SIDES and b in SIDES) or (a.startswith("self.") and b.startswith("self.") and a[5:] in self.handlers and b[5:] in self.handlers)
 
-    handlers = ("start", "relay_messages", "done")
-
     # ---- values
     def top_event(self, st):
         return st.get("0:event")
 
+    def params_of(self, func_expr):
+        key = norm(func_expr)
+        if key not in self._params:
+            self._params[key] = ctor_params(self.model, self.rel, func_expr)
+        return self._params[key]
+
+    def bind_ctor(self, expr: ast.Call, name, st, depth):
+        """((param, value), ...) of a constructor call: positional and keyword arguments bound to the constructor's parameter names"""
+        params = self.params_of(expr.func)
+        out = []
+        for i, a in enumerate(expr.args):
+            if isinstance(a, ast.Starred):
+                raise AnalysisError(f"{self.rel}: starred arguments in {norm(expr)} are not modelled")
+            key = params[i] if params is not None and i < len(params) else f"#{i}"
+            out.append((key, self.value(a, st, depth)))
+        for k in expr.keywords:
+            if k.arg is None:
+                raise AnalysisError(f"{self.rel}: **kwargs in {norm(expr)} are not modelled")
+            out.append((k.arg, self.value(k.value, st, depth)))
+        return tuple(out)
+
+    def static_class(self, expr):
+        """name of the repository class a Name / dotted expression denotes (through the module's imports), else None"""
+        if not isinstance(expr, (ast.Name, ast.Attribute)):
+            return None
+        r = self.model.resolve_name(self.model.module(self.rel), expr)
+        if r is not None and isinstance(r[1], ast.ClassDef):
+            return r[1].name
+        return None
+
+    def attr_of(self, bv, attr, st):
+        """attribute ``attr`` of the abstract value ``bv``"""
+        if not isinstance(bv, tuple) or not bv:
+            return UNKNOWN
+        tag = bv[0]
+        if tag == "r":
+            ch = f"{bv[1]}.{attr}"
+            if ch in ("self.context.client.state", "self.context.server.state"):
+                return st.get("conn." + ch.split(".")[2])
+            if st.has(ch):
+                return st.get(ch)
+            return R(ch)
+        if tag == "cls" and bv[1] == "ConnectionState":
+            if attr not in self.cs:
+                raise AnalysisError(f"unknown ConnectionState member {attr}")
+            return C(self.cs[attr])
+        if tag == "ev":
+            d = dict(bv[2])
+            if attr == "connection" and "connection" in d:
+                return R("self.context." + d["connection"])
+            if attr == "data" and "data" in d:
+                return d["data"]
+            if attr == "message" and self.ev_isa(bv[1], "MessageInjected") and "from_client" in d:
+                return ("injmsg", d["from_client"])
+            return UNKNOWN
+        if tag == "injmsg":
+            if attr == "from_client":
+                return C(bv[1])
+            if attr == "content":
+                return ("data", "injected")
+            return UNKNOWN
+        if tag == "msg":
+            if attr == "content":
+                return ("content", bv)
+            if attr == "from_client":
+                return bv[1]
+            return UNKNOWN
+        if tag == "obj":
+            return ("obj", f"{bv[1]}.{attr}")
+        if tag == "new":
+            d = dict(bv[2])
+            return d.get(attr, UNKNOWN)
+        return UNKNOWN
+
+    def module_constant(self, name, st):
+        """value of a module-level constant of the layer's module (single assignment), e.g. `_READABLE = ConnectionState.CAN_READ`"""
+        vals = self.model.module(self.rel).assigns(name)
+        if len(vals) != 1 or name in self._modconst_busy:
+            return UNKNOWN
+        self._modconst_busy.add(name)
+        try:
+            return self.value(vals[0], State((), ()), 0)
+        finally:
+            self._modconst_busy.discard(name)
+
     def value(self, expr, st, depth):
-        ch = attr_chain(expr)
-        if ch in ("self.context.client.state", "self.context.server.state"):
-            return st.get("conn." + ch.split(".")[2])
-        if ch.startswith("ConnectionState.") and ch.count(".") == 1:
-            n = ch.split(".")[1]
-            if n not in self.cs:
-                raise AnalysisError(f"unknown ConnectionState member {ch}")
-            return C(self.cs[n])
+        if isinstance(expr, ast.Name):
+            if expr.id == "self" and not st.has(f"{depth}:self"):
+                return R("self")
+            if st.has(f"{depth}:{expr.id}"):
+                return st.get(f"{depth}:{expr.id}")
+            c = self.static_class(expr)
+            if c is not None:
+                return ("cls", c)
+            return self.module_constant(expr.id, st)
+        if isinstance(expr, ast.Attribute):
+            bv = self.value(expr.value, st, depth)
+            if bv == UNKNOWN:
+                c = self.static_class(expr)
+                if c is not None:
+                    return ("cls", c)
+                c = self.static_class(expr.value)
+                if c is not None:
+                    bv = ("cls", c)
+            return self.attr_of(bv, expr.attr, st)
         if isinstance(expr, ast.BinOp) and isinstance(expr.op, (ast.BitAnd, ast.BitOr)):
             a, b = self.value(expr.left, st, depth), self.value(expr.right, st, depth)
             if is_const(a) and is_const(b) and isinstance(a[1], int) and isinstance(b[1], int):
@@ -151,73 +429,153 @@ class RelaySpec(LayerSpec):
             if t is None:
                 return UNKNOWN
             return self.value(expr.body if t else expr.orelse, st, depth)
-        if isinstance(expr, ast.Yield) and isinstance(expr.value, ast.Call) and last_attr(expr.value.func) == "OpenConnection":
-            ev = self.top_event(st)
-            if is_ev(ev):
-                d = dict(ev[2])
-                if "open_err" in d:
-                    return C("connect failed") if d["open_err"] else C(None)
-            return UNKNOWN
-        if isinstance(expr, ast.Call):
-            name = last_attr(expr.func)
-            if name == "DataReceived" and not expr.keywords and len(expr.args) == 2:
-                conn = self.value(expr.args[0], st, depth)
-                data = self.value(expr.args[1], st, depth)
-                if conn[0] != "r" or conn[1] not in SIDES:
-                    raise AnalysisError(f"DataReceived built for an unmodelled connection: {norm(expr)}")
-                return ("ev", "DataReceived", (("connection", SIDES[conn[1]]), ("data", data)))
-            if name == self.msg_class and len(expr.args) == 2 and not expr.keywords:
-                return ("msg", self.value(expr.args[0], st, depth), self.value(expr.args[1], st, depth))
-        # attributes of abstract values
-        if isinstance(expr, ast.Attribute):
-            base = None
-            if isinstance(expr.value, ast.Name):
-                base = st.get(f"{depth}:{expr.value.id}")
-            elif isinstance(expr.value, ast.Attribute) and isinstance(expr.value.value, ast.Name) and expr.value.attr == "message":
-                ev = st.get(f"{depth}:{expr.value.value.id}")
-                if is_ev(ev) and self.ev_isa(ev[1], "MessageInjected"):
+        if isinstance(expr, ast.NamedExpr):
+            return self.value(expr.value, st, depth)
+        if isinstance(expr, ast.Yield):
+            cmd = self.value(expr.value, st, depth) if expr.value is not None else UNKNOWN
+            if isinstance(cmd, tuple) and cmd and cmd[0] == "new" and cmd[1] == "OpenConnection":
+                ev = self.top_event(st)
+                if is_ev(ev):
                     d = dict(ev[2])
-                    if expr.attr == "from_client":
-                        return C(d["from_client"])
-                    if expr.attr == "content":
-                        return ("data", "injected")
-                    return UNKNOWN
-            if is_ev(base):
-                d = dict(base[2])
-                if expr.attr == "connection" and "connection" in d:
-                    return R("self.context." + d["connection"])
-                if expr.attr == "data" and "data" in d:
-                    return d["data"]
-                return UNKNOWN
-            if isinstance(base, tuple) and base and base[0] == "msg":
-                if expr.attr == "content":
-                    return ("content", base)
-                if expr.attr == "from_client":
-                    return base[1]
-                return UNKNOWN
+                    if "open_err" in d:
+                        return C("connect failed") if d["open_err"] else C(None)
+            return UNKNOWN
+        if isinstance(expr, (ast.Tuple, ast.List)) and not any(isinstance(e, ast.Starred) for e in expr.elts):
+            return ("seq", tuple(self.value(e, st, depth) for e in expr.elts))
+        if isinstance(expr, ast.Call):
+            if isinstance(expr.func, ast.Name) and expr.func.id == "bool" and len(expr.args) == 1 and not expr.keywords:
+                t = self.truth(expr.args[0], st, depth)
+                return UNKNOWN if t is None else C(t)
+            if isinstance(expr.func, ast.Name) and expr.func.id in ("any", "all") and len(expr.args) == 1 and not expr.keywords and not st.has(f"{depth}:{expr.func.id}"):
+                t = self.quantifier(expr.func.id == "all", expr.args[0], st, depth)
+                return UNKNOWN if t is None else C(t)
+            if isinstance(expr.func, ast.Name) and expr.func.id in ("tuple", "list") and len(expr.args) == 1 and not expr.keywords:
+                v = self.value(expr.args[0], st, depth)
+                return v if isinstance(v, tuple) and v and v[0] == "seq" else UNKNOWN
+            name = last_attr(expr.func)
+            if name == "DataReceived" and self.static_class(expr.func) == "DataReceived":
+                d = dict(self.bind_ctor(expr, name, st, depth))
+                conn = d.get("connection", UNKNOWN)
+                if conn[0] != "r" or conn[1] not in SIDES or "data" not in d:
+                    raise AnalysisError(f"DataReceived built for an unmodelled connection: {norm(expr)}")
+                return ("ev", "DataReceived", (("connection", SIDES[conn[1]]), ("data", d["data"])))
+            if name == self.msg_class:
+                d = dict(self.bind_ctor(expr, name, st, depth))
+                if "from_client" in d and "content" in d:
+                    return ("msg", d["from_client"], d["content"])
+                raise AnalysisError(f"{self.msg_class} built in a way the relay model does not interpret: {norm(expr)}")
+            if name and name[0].isupper() and (self.static_class(expr.func) is not None or isinstance(expr.func, ast.Attribute)):
+                return ("new", name, self.bind_ctor(expr, name, st, depth))
+            fn = self.inline(expr, st, depth)
+            if fn is not None:
+                return self.pure_call(fn, expr, st, depth)
+            return UNKNOWN
         return LayerSpec.value(self, expr, st, depth)
 
+    def quantifier(self, is_all: bool, arg, st, depth):
+        """three-valued any(...) / all(...) over a sequence of known values: a literal / helper result, or a comprehension with one
+        generator over such a sequence"""
+        truths = None
+        if isinstance(arg, (ast.GeneratorExp, ast.ListComp)) and len(arg.generators) == 1 and isinstance(arg.generators[0].target, ast.Name) and not arg.generators[0].is_async:
+            g = arg.generators[0]
+            seq = self.value(g.iter, st, depth)
+            if isinstance(seq, tuple) and seq and seq[0] == "seq":
+                truths = []
+                for v in seq[1]:
+                    s2 = st.set(f"{depth}:{g.target.id}", v)
+                    conds = [self.truth(c, s2, depth) for c in g.ifs]
+                    if any(c is False for c in conds):
+                        continue
+                    t = self.truth(arg.elt, s2, depth)
+                    truths.append(None if any(c is None for c in conds) and t is not (True if is_all else False) else t)
+        else:
+            seq = self.value(arg, st, depth)
+            if isinstance(seq, tuple) and seq and seq[0] == "seq":
+                truths = [self.truth_of_value(v) for v in seq[1]]
+        if truths is None:
+            return None
+        decisive = False if is_all else True
+        if any(t is decisive for t in truths):
+            return decisive
+        return None if any(t is None for t in truths) else (not decisive)
+
+    def truth_of_value(self, v):
+        if is_const(v):
+            return bool(v[1])
+        if isinstance(v, tuple) and v and (v[0] in self.OBJECT_TAGS or (v[0] == "r" and v[1] in SIDES)):
+            return True
+        if isinstance(v, tuple) and v and v[0] == "seq":
+            return bool(v[1])
+        return None
+
+    def pure_call(self, fn, call, st, depth):
+        """value of a helper call inside an expression: the callee is executed abstractly; it must be pure (no event of the
+        rule's alphabet, no change of tracked state) and deterministic on this state"""
+        if depth + 1 > self.max_depth:
+            return UNKNOWN
+        o = RelayEngine(self).call(fn, call, {State((), st.env)}, depth)
+        if o.exc or len(o.ret) != 1:
+            return UNKNOWN
+        (r,) = o.ret
+        if r.trace or r.drop(lambda k: k == "$ret").env != st.env:
+            raise AnalysisError(f"{self.rel}: helper with effects called inside an expression: {norm(call)}")
+        return r.get("$ret")
+
+    OBJECT_TAGS = ("obj", "ev", "msg", "injmsg", "new", "cls")
+
+    def decide_leaf(self, cond, st, depth):
+        if isinstance(cond, ast.Call) and isinstance(cond.func, ast.Name) and cond.func.id == "bool" and len(cond.args) == 1 and not cond.keywords:
+            return self.truth(cond.args[0], st, depth)
+        if isinstance(cond, (ast.Name, ast.Attribute)):
+            # flows, events, messages, commands and connections define neither __bool__ nor __len__
+            return self.truth_of_value(self.value(cond, st, depth))
+        if isinstance(cond, ast.Compare) and len(cond.ops) == 1:
+            a = self.value(cond.left, st, depth)
+            b = self.value(cond.comparators[0], st, depth)
+            op = cond.ops[0]
+            if isinstance(op, (ast.Is, ast.IsNot, ast.Eq, ast.NotEq)):
+                for x, y in ((a, b), (b, a)):
+                    if isinstance(x, tuple) and x and x[0] in self.OBJECT_TAGS and is_const(y):
+                        return isinstance(op, (ast.IsNot, ast.NotEq))  # an object is never None / a literal
+                    if isinstance(x, tuple) and x and x[0] == "r" and x[1] in SIDES and is_const(y) and y[1] is None:
+                        return isinstance(op, (ast.IsNot, ast.NotEq))
+            if isinstance(op, (ast.In, ast.NotIn)) and not isinstance(cond.comparators[0], (ast.Tuple, ast.Set, ast.List)):
+                # Flag containment: `member in flags`  <=>  flags & member == member
+                if is_const(a) and is_const(b) and type(a[1]) is int and type(b[1]) is int:
+                    res = (b[1] & a[1]) == a[1]
+                    return res if isinstance(op, ast.In) else not res
+        return Spec.decide_leaf(self, cond, st, depth)
+
     def decide_extra(self, cond, st, depth):
-        if isinstance(cond, ast.BinOp):
+        if isinstance(cond, (ast.BinOp, ast.IfExp, ast.Call)) and not (isinstance(cond, ast.Call) and isinstance(cond.func, ast.Name) and cond.func.id == "isinstance"):
             v = self.value(cond, st, depth)
             if is_const(v):
                 return bool(v[1])
-        if isinstance(cond, ast.Compare) and attr_chain(cond.left) == "self.context.server.timestamp_start" and len(cond.ops) == 1:
+        if isinstance(cond, ast.Compare) and len(cond.ops) == 1 and isinstance(cond.ops[0], (ast.Is, ast.IsNot, ast.Eq, ast.NotEq)):
             c = cond.comparators[0]
-            if isinstance(c, ast.Constant) and c.value is None and isinstance(cond.ops[0], (ast.Is, ast.IsNot)):
+            left = self.value(cond.left, st, depth)
+            if left == R("self.context.server.timestamp_start") and isinstance(c, ast.Constant) and c.value is None:
                 v = st.get("conn.server")
                 if is_const(v):
                     never_connected = v[1] == self.cs["CLOSED"]
-                    return never_connected if isinstance(cond.ops[0], ast.Is) else not never_connected
+                    return never_connected if isinstance(cond.ops[0], (ast.Is, ast.Eq)) else not never_connected
         return LayerSpec.decide_extra(self, cond, st, depth)
 
     def match_case(self, subject, pattern, st, depth):
-        if isinstance(pattern, ast.MatchAs) and pattern.pattern is None:
-            return True
-        v = self.value(subject, st, depth)
-        if isinstance(pattern, ast.MatchClass) and is_ev(v) and not pattern.patterns and not pattern.kwd_patterns:
-            return self.ev_isa(v[1], last_attr(pattern.cls))
-        raise AnalysisError(f"{self.rel}: match pattern the relay model does not interpret: {norm(pattern)}")
+        d = Spec.match_case(self, subject, pattern, st, depth)
+        if d is None:
+            raise AnalysisError(f"{self.rel}: match pattern the relay model cannot decide: {norm(pattern)}")
+        return d
+
+    # ---- inlining: methods of the layer (LayerSpec) and module-level helper functions of the layer's module
+    def inline(self, call, st, depth):
+        f = call.func
+        if isinstance(f, ast.Name) and not st.has(f"{depth}:{f.id}"):
+            d = self.model.module(self.rel).get(f.id)
+            if isinstance(d, ast.FunctionDef):
+                return d
+            return None
+        return LayerSpec.inline(self, call, st, depth)
 
     # ---- the environment's part of a transition
     def delivered(self, st):
@@ -232,12 +590,51 @@ class RelaySpec(LayerSpec):
                 cl = C(new)
             else:
                 sv = C(new)
+            if dict(ev[2]).get("peer_eof"):
+                # the other peer's read side was closed as well before this event reached the layer (its own ConnectionClosed is queued
+                # behind this one, e.g. while the layer was paused on a hook): server.py updates connection.state when the socket closes
+                oth = st.get("conn." + OTHER[side])[1]
+                onew = C((oth & ~self.cs["CAN_READ"]) if self.proto == "tcp" else self.cs["CLOSED"])
+                if side == "client":
+                    sv = onew
+                else:
+                    cl = onew
         return cl, sv
 
     def side(self, v):
         if isinstance(v, tuple) and v and v[0] == "r" and v[1] in SIDES:
             return SIDES[v[1]]
         return "?" + str(v)
+
+    @staticmethod
+    def yields_of(node):
+        return [n for n in eval_order(node) if isinstance(n, ast.Yield)]
+
+    def command_events(self, y: ast.Yield, st, depth):
+        """events of one `yield <command>`: decided on the value that reaches the yield"""
+        if y.value is None:
+            return []
+        v = self.value(y.value, st, depth)
+        if not (isinstance(v, tuple) and v and v[0] == "new"):
+            raise AnalysisError(f"{self.rel}: `yield {norm(y.value)}`: the relay model cannot tell which command this is")
+        name, args = v[1], dict(v[2])
+        if name.endswith("Hook"):
+            return [("hook", name)]
+        if name == "SendData":
+            return [("send", self.side(args.get("connection", UNKNOWN)), args.get("data", UNKNOWN))]
+        if name == "OpenConnection":
+            return [("open", self.side(args.get("connection", UNKNOWN)))]
+        if name in ("CloseConnection", "CloseTcpConnection"):
+            half = False
+            if "half_close" in args:
+                hv = args["half_close"]
+                if not is_const(hv):
+                    raise AnalysisError(f"half_close not decidable: {norm(y.value)}")
+                half = bool(hv[1])
+            return [("close", self.side(args.get("connection", UNKNOWN)), "half" if half else "full")]
+        if name == "Log":
+            return []
+        return [("cmd", name)]
 
     # ---- events
     def events(self, node, st):
@@ -250,46 +647,26 @@ class RelaySpec(LayerSpec):
             return [("deliver", ev[1], d.get("connection", "client" if d.get("from_client") else "server" if "from_client" in d else "-"), cl[1], sv[1])]
         for n in eval_order(node):
             if isinstance(n, ast.Yield):
-                v = n.value
-                if isinstance(v, ast.Call):
-                    name = last_attr(v.func)
-                    if name.endswith("Hook"):
-                        out.append(("hook", name))
-                    elif name == "SendData" and len(v.args) == 2:
-                        out.append(("send", self.side(self.value(v.args[0], st, depth)), self.value(v.args[1], st, depth)))
-                    elif name == "OpenConnection":
-                        out.append(("open", self.side(self.value(v.args[0], st, depth)) if v.args else "?"))
-                    elif name in ("CloseConnection", "CloseTcpConnection"):
-                        half = False
-                        for k in v.keywords:
-                            if k.arg == "half_close":
-                                hv = self.value(k.value, st, depth)
-                                if not is_const(hv):
-                                    raise AnalysisError(f"half_close not a literal: {norm(v)}")
-                                half = bool(hv[1])
-                        if len(v.args) >= 2:
-                            hv = self.value(v.args[1], st, depth)
-                            if not is_const(hv):
-                                raise AnalysisError(f"half_close not a literal: {norm(v)}")
-                            half = bool(hv[1])
-                        out.append(("close", self.side(self.value(v.args[0], st, depth)) if v.args else "?", "half" if half else "full"))
-                    elif name == "Log":
-                        pass
-                    else:
-                        out.append(("cmd", name))
-                elif v is not None:
-                    out.append(("cmd", "?"))
-            elif isinstance(n, ast.Call) and attr_chain(n.func) == "self.flow.messages.append" and len(n.args) == 1:
+                out += self.command_events(n, st, depth)
+            elif isinstance(n, ast.Call) and isinstance(n.func, ast.Attribute) and n.func.attr in ("append", "extend", "insert") and self.value(n.func.value, st, depth) == ("obj", "flow.messages"):
+                if n.func.attr != "append" or len(n.args) != 1:
+                    raise AnalysisError(f"{self.rel}: flow.messages changed in a way the relay model does not interpret: {norm(n)}")
                 out.append(("append", self.value(n.args[0], st, depth)))
-        if isinstance(node, ast.Assign):
-            for t in node.targets:
-                ch = attr_chain(t)
-                if ch == "self._handle_event":
-                    out.append(("set", attr_chain(node.value) or "?"))
-                elif ch == "self.flow.live":
-                    out.append(("live", bool(getattr(node.value, "value", None))))
-                elif ch == "self.flow.error":
-                    out.append(("error:=",))
+            elif isinstance(n, ast.Call) and isinstance(n.func, ast.Attribute) and n.func.attr in ("append", "extend", "insert", "add") and self.value(n.func.value, st, depth) == UNKNOWN:
+                if any(isinstance(v, tuple) and v and v[0] == "msg" for v in (self.value(a, st, depth) for a in n.args)):
+                    raise AnalysisError(f"{self.rel}: a message is stored in an object the relay model cannot identify: {norm(n)}")
+        targets = node.targets if isinstance(node, ast.Assign) else [node.target] if isinstance(node, (ast.AnnAssign, ast.AugAssign)) and getattr(node, "value", None) is not None else []
+        for t in targets:
+            if not isinstance(t, ast.Attribute):
+                continue
+            tv = self.value(t.value, st, depth)
+            if tv == R("self") and t.attr == "_handle_event":
+                hv = self.value(node.value, st, depth)
+                out.append(("set", hv[1] if isinstance(hv, tuple) and hv and hv[0] == "r" else "?"))
+            elif tv == FLOW and t.attr == "live":
+                out.append(("live", bool(getattr(node.value, "value", None))))
+            elif tv == FLOW and t.attr == "error":
+                out.append(("error:=",))
         return out
 
     def depth_of(self, st, node):
@@ -305,29 +682,23 @@ class RelaySpec(LayerSpec):
         if isinstance(stmt, ast.Expr) and isinstance(stmt.value, ast.Call) and attr_chain(stmt.value.func) == "__deliver__":
             cl, sv = self.delivered(st)
             return st.set("conn.client", cl).set("conn.server", sv)
-        y = None
-        if isinstance(stmt, ast.Expr) and isinstance(stmt.value, ast.Yield):
-            y = stmt.value
-        elif isinstance(stmt, ast.Assign) and isinstance(stmt.value, ast.Yield):
-            y = stmt.value
-        if y is not None and isinstance(y.value, ast.Call):
-            name = last_attr(y.value.func)
-            args = y.value.args
-            if name in ("CloseConnection", "CloseTcpConnection") and args:
-                side = self.side(self.value(args[0], st, depth))
-                if side.startswith("?"):
-                    raise AnalysisError(f"close of an unmodelled connection: {norm(y.value)}")
-                half = any(k.arg == "half_close" and is_const(self.value(k.value, st, depth)) and self.value(k.value, st, depth)[1] for k in y.value.keywords)
-                if len(args) >= 2:
-                    hv = self.value(args[1], st, depth)
-                    half = bool(is_const(hv) and hv[1])
-                cur = st.get("conn." + side)[1]
-                new = (cur & ~self.cs["CAN_WRITE"]) if half else self.cs["CLOSED"]
-                st = st.set("conn." + side, C(new))
-            elif name == "OpenConnection" and args:
-                err = self.value(y, st, depth)
-                if is_const(err) and err[1] is None:
-                    st = st.set("conn.server", C(self.cs["OPEN"]))
+        st0 = st
+        for y in self.yields_of(stmt):
+            for e in self.command_events(y, st0, depth):
+                if e[0] == "close":
+                    if e[1].startswith("?"):
+                        raise AnalysisError(f"close of an unmodelled connection: {norm(y.value)}")
+                    cur = st.get("conn." + e[1])[1]
+                    st = st.set("conn." + e[1], C((cur & ~self.cs["CAN_WRITE"]) if e[2] == "half" else self.cs["CLOSED"]))
+                elif e[0] == "open":
+                    err = self.value(y, st0, depth)
+                    if is_const(err) and err[1] is None:
+                        st = st.set("conn.server", C(self.cs["OPEN"]))
+        if isinstance(stmt, ast.Assign) and len(stmt.targets) == 1 and isinstance(stmt.targets[0], ast.Attribute) and attr_chain(stmt.targets[0]) not in self.tracked:
+            # assignment through an alias of self (`me = self; me._handle_event = ...`) is not modelled: refuse instead of missing a state change
+            t = stmt.targets[0]
+            if t.attr in ("_handle_event", "flow") and self.value(t.value, st0, depth) == R("self"):
+                raise AnalysisError(f"{self.rel}: {norm(t)} assigned through an alias")
         return LayerSpec.effect(self, stmt, st, depth)
 
 
@@ -336,12 +707,84 @@ def entry_function():
     return ast.parse(src).body[0]
 
 
-def initial_handler(model, rel, cls) -> str:
+def class_functions(c: ast.ClassDef):
+    return [st for st in c.body if isinstance(st, (ast.FunctionDef, ast.AsyncFunctionDef))]
+
+
+def discover_handlers(model, rel, cls) -> tuple:
+    """The layer's state functions, by role: every method of the class that is ever stored in `_handle_event` (class-level initial
+    binding or `self._handle_event = self.<method>` anywhere in the class)."""
     c = model.cls(rel, cls)
-    hits = [st for st in c.body if isinstance(st, ast.Assign) and any(isinstance(t, ast.Name) and t.id == "_handle_event" for t in st.targets)]
-    if len(hits) != 1 or not isinstance(hits[0].value, ast.Name):
-        raise AnalysisError(f"{rel}::{cls}: class-level `_handle_event = <state function>` not found")
-    return hits[0].value.id
+    methods = {f.name for f in class_functions(c)}
+    out = []
+    for st in c.body:
+        if isinstance(st, (ast.Assign, ast.AnnAssign)) and st.value is not None:
+            tg = st.targets if isinstance(st, ast.Assign) else [st.target]
+            if any(isinstance(t, ast.Name) and t.id == "_handle_event" for t in tg) and isinstance(st.value, ast.Name) and st.value.id in methods:
+                out.append(st.value.id)
+    for f in class_functions(c):
+        for n in ast.walk(f):
+            if isinstance(n, (ast.Assign, ast.AnnAssign)) and n.value is not None:
+                tg = n.targets if isinstance(n, ast.Assign) else [n.target]
+                if any(isinstance(t, ast.Attribute) and t.attr == "_handle_event" for t in tg):
+                    for x in ast.walk(n.value):
+                        if isinstance(x, ast.Attribute) and isinstance(x.value, ast.Name) and x.value.id == "self" and x.attr in methods and x.attr not in out:
+                            out.append(x.attr)
+    if not out:
+        raise AnalysisError(f"{rel}::{cls}: no state function is ever stored in _handle_event")
+    return tuple(out)
+
+
+def initial_handler(model, rel, cls) -> str:
+    """the state function the layer starts in: class-level `_handle_event = <method>`, else `self._handle_event = self.<method>` in __init__"""
+    c = model.cls(rel, cls)
+    hits = []
+    for st in c.body:
+        if isinstance(st, (ast.Assign, ast.AnnAssign)) and st.value is not None:
+            tg = st.targets if isinstance(st, ast.Assign) else [st.target]
+            if any(isinstance(t, ast.Name) and t.id == "_handle_event" for t in tg):
+                hits.append(st.value.id if isinstance(st.value, ast.Name) else None)
+    if not hits:
+        for f in class_functions(c):
+            if f.name == "__init__":
+                for n in ast.walk(f):
+                    if isinstance(n, ast.Assign) and any(attr_chain(t) == "self._handle_event" for t in n.targets):
+                        hits.append(attr_chain(n.value)[5:] if attr_chain(n.value).startswith("self.") else None)
+    if len(hits) != 1 or hits[0] is None:
+        raise AnalysisError(f"{rel}::{cls}: initial `_handle_event = <state function>` not found")
+    return hits[0]
+
+
+def sink_handlers(spec: "RelaySpec", entry, inj: str) -> tuple:
+    """The terminal ("done") state functions, by behaviour: a state function that, for every event the environment can deliver in every
+    socket / flow configuration, produces no command, no hook, no record and never leaves itself."""
+    cs = spec.cs
+    states = sorted({cs["OPEN"], cs["CAN_READ"], cs["CAN_WRITE"], cs["CLOSED"]})
+    evs = [EV("DataReceived", connection=s, data=("data", "wire")) for s in ("client", "server")]
+    evs += [EV("ConnectionClosed", connection=s) for s in ("client", "server")]
+    evs += [EV(inj, from_client=True), EV(inj, from_client=False)]
+    out = []
+    for h in spec.handlers:
+        eng = RelayEngine(spec)
+        sink = True
+        for flow in (C(None), FLOW):
+            for cl in states:
+                for sv in states:
+                    for ev in evs:
+                        if not sink:
+                            break
+                        env = {"self._handle_event": R("self." + h), "self.flow": flow, "conn.client": C(cl), "conn.server": C(sv)}
+                        try:
+                            finals = eng.finals(entry, State((), env).set("0:event", ev))
+                        except AnalysisError:
+                            sink = False
+                            break
+                        for fs in finals:
+                            if fs.get("$exc") != UNKNOWN or any(e[0] != "deliver" for e in fs.trace) or fs.get("self._handle_event") != R("self." + h) or fs.get("self.flow") != flow:
+                                sink = False
+        if sink and not eng.pruned:
+            out.append(h)
+    return tuple(out)
 
 
 class Relay(Monitor):
@@ -358,7 +801,7 @@ class Relay(Monitor):
     def offers(self, env, mon):
         h = env["self._handle_event"]
         cs = self.spec.cs
-        if h == R("self.start"):
+        if h == R("self." + self.spec.h0):
             if env["conn.server"] == C(cs["CLOSED"]):
                 return [EV("Start", open_err=False), EV("Start", open_err=True)]
             return [EV("Start")]
@@ -370,6 +813,9 @@ class Relay(Monitor):
             if state & cs["CAN_READ"]:
                 out.append(EV("DataReceived", connection=side, data=("data", "wire")))
             out.append(EV("ConnectionClosed", connection=side))
+            o = OTHER[side]
+            if f"cc_{o}" not in mon and not (o == "server" and "server_never" in mon) and env["conn." + o][1] & cs["CAN_READ"]:
+                out.append(EV("ConnectionClosed", connection=side, peer_eof=True))
         out += [EV(self.inj, from_client=True), EV(self.inj, from_client=False)]
         return out
 
@@ -379,8 +825,13 @@ class Relay(Monitor):
         attrs = dict(ev[2])
         cs = self.spec.cs
         p = self.p
-        has_flow = env.get("self.flow") == C(True)
+        has_flow = env.get("self.flow") != C(None)
         pre_done = "done" in flags
+        nd = [e[1] for e in trace if e[0] == "nondet"] + [f[7:] for f in flags if f.startswith("nondet:")]
+        if nd:
+            flags = {f for f in flags if not f.startswith("nondet:")} | {"nondet:" + nd[0]}
+            say = report
+            report = lambda m: say(f"{m.split()[0]} [undecided: {nd[0]}] {m[len(m.split()[0]) + 1:]}")  # noqa: E731
         if exc is not None:
             report(f"R29.1 {kind} makes the layer raise {exc}")
             return None
@@ -388,7 +839,7 @@ class Relay(Monitor):
         if len(dl) != 1:
             raise AnalysisError(f"C29 model: transition without delivery marker: {trace}")
         _, _, src, cl, sv = dl[0]
-        body = [e for e in trace if e[0] != "deliver"]
+        body = [e for e in trace if e[0] not in ("deliver", "nondet")]
         effects = [e for e in body if e[0] in ("hook", "send", "append", "close", "open", "cmd")]
         for e in body:
             if e[0] == "send" and (not isinstance(e[2], tuple) or e[2] == UNKNOWN or str(e[1]).startswith("?")):
@@ -409,7 +860,7 @@ class Relay(Monitor):
                     report(f"R29.1 {e[:2]} happens after the flow's end/error hook")
         if pre_done and effects:
             report(f"R29.1 the finished layer still reacts to {kind}: {effects[0][:2]}")
-        now_done = env.get("self._handle_event") == R("self.done")
+        now_done = env.get("self._handle_event") in [R("self." + h) for h in self.spec.sinks]
         if now_done:
             flags.add("done")
             if has_flow and "ended" not in flags:
@@ -497,33 +948,42 @@ def check(ctx):
     ctx.assume(
         "environment automaton (proxy/server.py): Start first; DataReceived(c) only while c is readable and its ConnectionClosed was not "
         "delivered; exactly one ConnectionClosed per opened connection, delivered after CAN_READ was cleared (TCP) / state set CLOSED "
-        "(UDP, or closed by command); CloseConnection => CLOSED; CloseTcpConnection(half_close=True) => CAN_WRITE cleared; "
+        "(UDP, or closed by command), possibly only after the other peer's read side was closed too (events queued while the layer is paused); CloseConnection => CLOSED; CloseTcpConnection(half_close=True) => CAN_WRITE cleared; "
         "OpenConnection succeeds (OPEN) or fails (reply = error text); injected messages at any time after Start"
     )
     ctx.assume("paths that would trip an @expect assertion are reported, not pruned: the run requires 0 pruned paths")
     entry = entry_function()
     for rel, cls, proto, msg, inj, p in LAYERS:
-        for fn in ("start", "relay_messages", "done"):
-            ctx.func(rel, f"{cls}.{fn}")
         spec = RelaySpec(m, rel, cls, proto, msg, inj)
+        for fn in spec.handlers:
+            ctx.func(rel, f"{cls}.{fn}")
         ctx.require(spec.ev_isa(inj, "MessageInjected"), f"{rel}::{inj} is no MessageInjected subclass any more")
-        h0 = initial_handler(m, rel, cls)
+        h0 = spec.h0 = initial_handler(m, rel, cls)
         ctx.require(h0 in spec.handlers, f"{rel}::{cls} starts in unmodelled handler {h0}")
+        spec.sinks = sink_handlers(spec, entry, inj)
+        ctx.note(f"{cls}: state functions {list(spec.handlers)}, initial {h0}, terminal (swallow-all, found by exploration) {list(spec.sinks)}")
         seen_msgs = set()
         totals = {"states": 0, "transitions": 0}
         by_rule = {"R29.1": 0, "R29.2": 0, "R29.3": 0}
+        undecided: list = []
         cases = {}
-        for has_flow in (True, False):
+        for ignore in (False, True):
+            init_env = spec.initial_env(ignore)
+            has_flow = init_env["self.flow"] != C(None)
             for server0 in ("CLOSED", "OPEN"):
-                env0 = {
+                env0 = dict(init_env)
+                env0.update({
                     "self._handle_event": R("self." + h0),
-                    "self.flow": C(has_flow),
                     "conn.client": C(spec.cs["OPEN"]),
                     "conn.server": C(spec.cs[server0]),
-                }
+                })
                 mon = Relay(spec, p, inj)
-                res = explore(spec, entry, env0, mon)
-                if res["pruned"]:
+                spec.nondet_seen.clear()
+                res = explore_relay(spec, entry, env0, mon)
+                if res["pruned"] and spec.nondet_seen:
+                    by_rule["R29.1"] += 1
+                    undecided.append(f"{cls}: {res['pruned']} explored paths trip an assertion of the layer, but branches could not be decided: {sorted(spec.nondet_seen)[:3]}")
+                elif res["pruned"]:
                     by_rule["R29.1"] += 1
                     ctx.fail("R29.1", (rel, cls, m.cls(rel, cls)), "deliverable event rejected by @expect / assert",
                              f"{res['pruned']} explored paths trip an assertion of the layer (flow={has_flow}, server initially {server0})")
@@ -541,9 +1001,15 @@ def check(ctx):
                         continue
                     seen_msgs.add((rule, msg_))
                     by_rule[rule] = by_rule.get(rule, 0) + 1
+                    if msg_.startswith("[undecided: "):
+                        # found on a path through a branch the model explored both ways: possibly spurious - the run ends as ANALYSIS-ERROR
+                        # unless a finding on fully decided paths exists
+                        undecided.append(f"{cls}: {rule} suspected on a path through a branch the relay model cannot decide {msg_[:300]}")
+                        continue
                     hist = " ; ".join(f"{k}->{[e for e in t if e[0] != 'deliver']}" for k, t in v["history"][-4:])
                     ctx.fail(rule, (rel, cls, m.cls(rel, cls)), msg_, f"reachable in the extracted {cls} model (flow={has_flow}, server initially {server0}) via: {hist}")
         ctx.note(f"{cls}: {totals['states']} abstract states, {totals['transitions']} transitions over 4 initial configurations; cases {cases}")
+        ctx.deferred.extend(undecided[:3])
         # the exploration must have exercised every kind of case (guards against a collapsed model)
         need = {"data": 8, "final": 2, "done": 4, "start": 6}
         if proto == "tcp":
@@ -587,6 +1053,8 @@ MUTANTS = [
     Mutant("tcp-all-done-and", TCP, "                (self.context.client.state & ConnectionState.CAN_READ)\n                or (self.context.server.state", "                (self.context.client.state & ConnectionState.CAN_READ)\n                and (self.context.server.state", "R29.3"),
     Mutant("tcp-all-done-checks-write-bit", TCP, "(self.context.server.state & ConnectionState.CAN_READ)", "(self.context.server.state & ConnectionState.CAN_WRITE)", "R29.3"),
     Mutant("tcp-client-left-open", TCP, "                if self.context.client.state is not ConnectionState.CLOSED:\n                    yield commands.CloseConnection(self.context.client)\n", "", "R29.3"),
+    Mutant("tcp-final-close-only-peer", TCP, "                if self.context.server.state is not ConnectionState.CLOSED:\n                    yield commands.CloseConnection(self.context.server)\n                if self.context.client.state is not ConnectionState.CLOSED:\n                    yield commands.CloseConnection(self.context.client)\n",
+           "                if send_to.state is not ConnectionState.CLOSED:\n                    yield commands.CloseConnection(send_to)\n", "R29.3"),
     Mutant("tcp-half-close-wrong-side", TCP, "yield commands.CloseTcpConnection(send_to, half_close=True)", "yield commands.CloseTcpConnection(event.connection, half_close=True)", "R29.3"),
     Mutant("udp-close-not-propagated", UDP, "            yield commands.CloseConnection(send_to)\n", "", "R29.3"),
 ]
